@@ -2,6 +2,7 @@ import json, os
 import vlib, apidrive
 
 ASSUME = [
+    'macro schedules (TestVerifC02Macro): the same operations with the usual combinations as single steps (A = apply next chunk, A+P = apply then snapshot+persist, A+F = apply then snapshot whose persist fails, P, F, R = restore newest snapshot on the live FSM + tail, X = restart), all enabled schedules of length 5 (6) on the logs all-old and gaps (thorough: all logs)',
     'two-node tier (TestVerifC02Cluster): leader and follower with their own directories and FSMs (package globals switched per node), one committed log; the follower may lag, install the snapshot the LEADER persisted (FSM.Restore of a foreign snapshot) and continue with the tail, snapshot and restart itself; schedules of length 5 (7); each node vs its own twin, and both nodes must serve equal output for inputs both retain',
     'real FSM.Apply/Snapshot/Restore, robustSnapshot.Persist, LevelDB irclog, output stream and raft FileSnapshotStore; the raft driver (which index a snapshot gets, which entries are replayed after a restore/restart) is a 40-line model: restore the newest snapshot, then apply every entry above its index',
     'logs: 6 (thorough 8) logs of 2-5 chunks with index gaps (raft-internal entries) and age patterns all-old / old-new / old-new-old / all-new; the compaction time is chosen per age class (inclusive), "nothing old", and one time that puts the newest chunk between 10 min and the configured 30 min expiration',
@@ -16,7 +17,7 @@ def prebuild():
     apidrive.build()
 
 def run(tier):
-    apidrive.run_seq('C02', tier, ['TestVerifC02', 'TestVerifC02Cluster'], ASSUME, RULE)
+    apidrive.run_seq('C02', tier, ['TestVerifC02', 'TestVerifC02Cluster', 'TestVerifC02Macro'], ASSUME, RULE)
 
 def replay(path):
     import subprocess
